@@ -265,6 +265,8 @@ def _coq_cfg(cfg):
 
 
 def correspond(ctx, corr, model_ok):
+    from harness import battery
+    battery.run(corr, ['slow-connect-keepalive'])
     rng = ctx.rng
     items = []
     corr.oracle_failures.extend(reconnect_setup_oracle())
@@ -458,6 +460,10 @@ def search(ctx, budget_s):
 
 
 def replay(obj):
+    from harness import battery as _bat
+    _r = _bat.replay(obj.get('case') if isinstance(obj.get('case'), dict) else obj)
+    if _r is not None:
+        return _r
     case = obj['case']
     if case.get('kind') == 'reconnect-setup':
         return bool(reconnect_setup_oracle())
